@@ -2,7 +2,7 @@
 # tools/process_seed.sh <cNN> [tier]  — confirm both seeded changes of /tmp/seed/cNN-out and run the property's check against them
 P=$1; TIER=${2:-quick}; ID=$(echo $P | tr a-z A-Z)
 for k in 1 2; do
-  d=/tmp/seed/$P-out/$k
+  d=${SEED_ROOT:-/tmp/seed}/$P-out/$k
   [ -f $d/patch.diff ] || { echo "== $P/$k: no patch"; continue; }
   echo "== $P/$k"
   eval $(python3 - $d <<'PY'
